@@ -68,6 +68,7 @@ inductive RecOp where
   | addEvent (name : Bytes) (ts : Option Int) (attrs : KVs)
   | setStatus (code : Nat) (desc : Bytes)
   | setDuration (d : Option Int)
+  deriving DecidableEq, Repr
 
 /-- `SpanData`'s implementation of each `Recordable` setter -/
 def SpanData.apply (sd : SpanData) : RecOp → SpanData
@@ -178,6 +179,7 @@ inductive Op where
   /-- `End(options)`, `options.end_steady_time` (0 = not given) -/
   | end_ (steady : Int)
   | flush
+  deriving DecidableEq, Repr
 
 /-- a mutator: `lock mu_; if (recordable_ == nullptr) return; recordable_->…` -/
 def mutate (s : State) (op : RecOp) : State :=
